@@ -2191,6 +2191,43 @@ impl<'a, C: Crypto> TransportRunner<'a, C> {
         Some((tx.header.proto.proto_id, tx.header.proto.proto_opcode))
     }
 
+    /// Verification hook: what `process_tx` would do with the packet waiting in the TX buffer:
+    /// (protocol id, opcode, it reaches the wire - `false` = no session to encode with, dropped).
+    /// The buffer is cleared. `None` if the buffer is empty or locked.
+    #[cfg(rs_matter_verif)]
+    pub fn verif_tx_flush_report(&self) -> Option<(u16, u8, bool)> {
+        let guard = self
+            .matter
+            .transport
+            .tx
+            .try_lock_if(|packet| !packet.buf.is_empty())
+            .ok()?;
+        let mut tx = PacketAccess(guard, false);
+        tx.clear_on_drop(true);
+
+        let sendable = match tx.tx_info.payload_state {
+            TxPayloadState::NotEncoded { session_id } => self
+                .matter
+                .with_state(|state| state.sessions.get_for_tx(session_id).is_some()),
+            TxPayloadState::Encoded => true,
+        };
+
+        Some((
+            tx.header.proto.proto_id,
+            tx.header.proto.proto_opcode,
+            sendable,
+        ))
+    }
+
+    /// Verification hook: (TX buffer locked, TX buffer non-empty).
+    #[cfg(rs_matter_verif)]
+    pub fn verif_tx_state(&self) -> (bool, bool) {
+        match self.matter.transport.tx.try_lock() {
+            Ok(guard) => (false, !guard.buf.is_empty()),
+            Err(_) => (true, true),
+        }
+    }
+
     /// Verification hook: (RX buffer locked, RX buffer non-empty, header of the packet in it).
     #[cfg(rs_matter_verif)]
     pub fn verif_rx_state(&self) -> (bool, bool, PacketHdr) {
